@@ -34,7 +34,81 @@ def gen_size(rnd, opts, allow_big=True):
     return dict(series=series, total=total)
 
 
+def gen_transfer_schedule(rnd, idn, faults):
+    """Directed family: a shard becomes overloaded by a growing target, a second shard is requested, a relief
+    transfer starts - and (with faults) its destination loses the target: update lost, pod recreated empty,
+    StatefulSet shrunk from outside, or the source restarts.  Then the quiet tail."""
+    opts = dict(maxHead=10, maxProc=20, minShard=1, maxShard=4, maxIdle=rnd.choice([0, 1]), noAlleviate=False)
+    if opts not in PRESETS:
+        opts = PRESETS[0] if opts['maxIdle'] == 1 else PRESETS[3]
+    sizes = [dict(series=6, total=7), dict(series=3, total=3), dict(series=rnd.choice([1, 2]), total=2)]
+    st = [step('add', t=1), step('probe', t=1), step('add', t=2), step('probe', t=2)]
+    if rnd.random() < 0.5:
+        st += [step('add', t=3), step('probe', t=3)]
+    st.append(step('cycle'))
+    st += [step('scrape', i=1)] * 3
+    st.append(step('size', t=2, series=6, total=7))
+    st += [step('scrape', i=1)] * 3
+    st.append(step('probe', t=2))
+    st.append(step('cycle'))                     # no room anywhere: a second shard is requested
+    for _ in range(rnd.choice([0, 1])):
+        st += [step('scrape', i=1), step('scrape', i=2)]
+    c = step('cycle')                            # the relief transfer starts
+    kind = rnd.choice(['lost', 'shrink', 'recreate', 'restart', 'none']) if faults else 'none'
+    if kind == 'lost':
+        c['postFail'] = [False, True, False, False]
+    st.append(c)
+    for _ in range(rnd.choice([0, 1, 2])):
+        st += [step('scrape', i=1), step('scrape', i=2)]
+    if kind == 'shrink':
+        st.append(step('shrink'))
+    elif kind == 'recreate':
+        st.append(step('recreate', i=2))
+    elif kind == 'restart':
+        st.append(step('restart', i=rnd.choice([1, 2])))
+    quiet_from = len(st) + 1
+    for t in range(1, NT + 1):
+        st.append(step('probe', t=t))
+    for r in range(QUIET_ROUNDS):
+        st.append(step('cycle'))
+        for k in range(3):
+            for i in range(1, MAXN + 1):
+                st.append(step('scrape', i=i))
+    return dict(id=idn, nsh0=1, nt=NT, opts=opts, sizes=sizes, steps=st, quietFrom=quiet_from, expectConverge=True)
+
+
+def gen_full_shards_schedule(rnd, idn, faults):
+    """Directed family: every shard holds one target that fills it; then the target of one shard leaves
+    discovery, so that an idle (not yet expired) shard sits behind / between full ones."""
+    opts = PRESETS[0] if rnd.random() < 0.7 else PRESETS[2]
+    sizes = [dict(series=6, total=7), dict(series=6, total=6), dict(series=rnd.choice([6, 7]), total=8)]
+    st = []
+    for t in (1, 2, 3):
+        st += [step('add', t=t), step('probe', t=t)]
+    for r in range(4):
+        st.append(step('cycle'))
+        for i in range(1, MAXN + 1):
+            st += [step('scrape', i=i)] * 3
+    st.append(step('remove', t=rnd.choice([1, 2, 3])))
+    if rnd.random() < 0.3:
+        st.append(step('tick'))
+    quiet_from = len(st) + 1
+    for t in range(1, NT + 1):
+        st.append(step('probe', t=t))
+    for r in range(QUIET_ROUNDS):
+        st.append(step('cycle'))
+        for k in range(3):
+            for i in range(1, MAXN + 1):
+                st.append(step('scrape', i=i))
+    return dict(id=idn, nsh0=rnd.choice([1, 2]), nt=NT, opts=opts, sizes=sizes, steps=st, quietFrom=quiet_from, expectConverge=True)
+
+
 def gen_schedule(rnd, idn, faults):
+    x = rnd.random()
+    if x < 0.3:
+        return gen_transfer_schedule(rnd, idn, faults)
+    if x < 0.45:
+        return gen_full_shards_schedule(rnd, idn, faults)
     opts = rnd.choice(PRESETS)
     sizes = [gen_size(rnd, opts) for _ in range(NT)]
     st = []
@@ -83,7 +157,13 @@ def gen_schedule(rnd, idn, faults):
         elif x < 0.55:
             st.append(step('alive', t=rnd.randint(1, NT), on=rnd.random() < 0.5))
         elif x < 0.7 and faults:
-            st.append(step('restart', i=rnd.randint(1, MAXN)))
+            k = rnd.random()
+            if k < 0.5:
+                st.append(step('restart', i=rnd.randint(1, MAXN)))
+            elif k < 0.75:
+                st.append(step('shrink'))
+            else:
+                st.append(step('recreate', i=rnd.randint(1, MAXN)))
         elif x < 0.8:
             st.append(step('probe', t=rnd.randint(1, NT)))
     quiet_from = len(st) + 1
@@ -228,8 +308,39 @@ def run_loop(prop, tier, scratch, faults, replay=None):
 
 def check(prop, tier, replay=None):
     t0 = time.time()
-    faults = prop == 'C06'
     with C.Scratch(prop) as scratch:
+        violations, cov, drift, assumptions = collect(prop, tier, scratch, prop == 'C06', replay)
+        return C.conclude(prop, tier, 'model_checking', cov, t0, violations, assumptions=assumptions, drift=drift)
+
+
+def check_c05(prop, tier, replay=None):
+    """C05 = the cycle form (scripted shards, all report combinations) + the history form (closed loop with
+    real sidecars: the cycle formulas on every cycle the coordinator ran, and no gap in which a held target
+    is held by nobody), without and with faults."""
+    t0 = time.time()
+    with C.Scratch(prop) as scratch:
+        if replay and 'schedule' in json.load(open(replay)):
+            v, cov, drift, ass = collect(prop, tier, scratch, True, replay)
+            return C.conclude(prop, tier, 'model_checking', cov, t0, v, assumptions=ass, drift=drift)
+        v1, cov1, d1, a1 = CY.collect(prop, tier, os.path.join(scratch), replay)
+        if replay:
+            return C.conclude(prop, tier, 'model_checking', cov1, t0, v1, assumptions=a1, drift=d1)
+        s2 = os.path.join(scratch, 'loop')
+        os.makedirs(s2)
+        v2, cov2, d2, a2 = collect(prop, tier, s2, True, None)
+        cov = dict(cov1)
+        cov['states'] = cov1['states'] + cov2['states']
+        cov['transitions'] = cov1['transitions'] + cov2['transitions']
+        cov['traces_validated_against_impl'] = cov1['traces_validated_against_impl'] + cov2['traces_validated_against_impl']
+        cov['evaluations'] = cov1['evaluations'] + cov2['closed_loop_cycles']
+        cov['closed_loop'] = {k: cov2[k] for k in ('evaluations', 'closed_loop_cycles', 'steps_executed', 'traces_validated_against_impl')}
+        cov['samples'] = cov1['samples'][:1] + cov2['samples'][:1]
+        cov['rule'] = cov1['rule'] + ' | closed loop: ' + cov2['rule']
+        return C.conclude(prop, tier, 'model_checking', cov, t0, v1 + v2, assumptions=a1 + a2, drift=d1 + d2)
+
+
+def collect(prop, tier, scratch, faults, replay=None):
+    if True:
         r = run_loop(prop, tier, scratch, faults, replay)
         violations = []
         want_cycle = {'C03': ['C03'], 'C06': [], 'C05': ['C05']}[prop]
@@ -263,6 +374,5 @@ def check(prop, tier, replay=None):
                    explanation='Kvass.tla (closed loop of one replica) is model-checked exhaustively in a small configuration (2 targets, <=3 shards); every recorded run is validated step by step against Kvass.tla by TLC '
                                '(KvassTrace: the world after each environment step must be the specified one, the world after a cycle must be reachable through some order of the coordinator\'s internal steps); '
                                'TLC evaluates convergence / stability / no-gap on the recorded worlds (KvassEval) and the cycle formulas on every cycle the coordinator ran (RebalanceEval)')
-        return C.conclude(prop, tier, 'model_checking', cov, t0, violations,
-                          assumptions=['scrape rounds, discovery, probing and the StatefulSet are simulated at the harness-owned boundaries; environment steps happen between cycles',
-                                       'convergence is judged after %d fault-free, change-free rounds' % QUIET_ROUNDS], drift=r['drift'])
+        return violations, cov, r['drift'], ['scrape rounds, discovery, probing and the StatefulSet are simulated at the harness-owned boundaries; environment steps happen between cycles',
+                                             'convergence is judged after %d fault-free, change-free rounds' % QUIET_ROUNDS]
